@@ -123,6 +123,9 @@ pub struct Profile {
     pub lead_blocks: u8,
     /// off mainnet, histories begin with a faucet that hands the wallet SYM, ERG, a new token and a few small MEL coins
     pub seed_funds: bool,
+    /// a third of the histories start from a state re-based (through from_block) to a low DOSC speed, so that
+    /// cheap proofs of work earn a non-zero reward and move the recorded speed
+    pub low_dosc_start: bool,
 }
 
 impl Profile {
@@ -147,6 +150,7 @@ impl Profile {
             mempool: true,
             lead_blocks: 0,
             seed_funds: false,
+            low_dosc_start: false,
         }
     }
 }
@@ -798,6 +802,51 @@ impl<'a> Builder<'a> {
         Some(Built { tx, inputs: vec![], valid, spelling: None, pool: None })
     }
 
+    /// A mint against a MEL coin of an earlier block, with a genuine (cheap) proof of work.
+    fn build_doscmint(&mut self, tp: &TxPlan) -> Option<Built> {
+        let h = self.height;
+        if h == 0 {
+            return None;
+        }
+        let idx = self.avail.iter().position(|c| {
+            c.cdh.coin_data.denom == Denom::Mel && c.cdh.height.0 < h && c.cdh.coin_data.value.0 > 0 && self.w.header_at(c.cdh.height.0).is_some() && !self.batch_created.contains(&c.id)
+        })?;
+        let coin = self.avail.remove(idx);
+        let hdr = self.w.header_at(coin.cdh.height.0)?;
+        let prev = self.w.header_at(h - 1)?.dosc_speed;
+        let tip910 = tp.spell % 2 == 0;
+        let difficulty: u32 = if tip910 { 1 + (tp.amount % 6) as u32 } else { 1 + (tp.amount % 10) as u32 };
+        let age = h - coin.cdh.height.0;
+        let bound = refstf::mint_bound(if tip910 { 100 } else { 1 }, difficulty, age, prev, h).map(|x| x.1).unwrap_or(0).min(MAX_COINVAL);
+        let erg = match tp.data % 5 {
+            0 | 1 => bound,
+            2 => bound / 2,
+            3 => 0,
+            _ => bound.saturating_add(1).min(MAX_COINVAL),
+        };
+        let puzzle = tmelcrypt::hash_keyed(hdr.hash(), &stdcode::serialize(&coin.id).unwrap());
+        let proof = if tip910 {
+            melpow::Proof::generate(&puzzle, difficulty as usize, melstf::Tip910MelPowHash)
+        } else {
+            melpow::Proof::generate(&puzzle, difficulty as usize, melstf::LegacyMelPowHash)
+        };
+        let inputs = {
+            let mut v = vec![coin.clone()];
+            // legacy-signature coins want slot 0: fine, the minted coin is input 0 anyway
+            v.retain(|_| true);
+            v
+        };
+        let mut tx = self.base(TxKind::DoscMint, &inputs);
+        tx.data = stdcode::serialize(&(difficulty, proof.to_bytes())).unwrap().into();
+        tx.outputs.push(CoinData { covhash: self.dest(tp.outs[0].dest).hash(), value: CoinValue(erg), denom: Denom::Erg, additional_data: Default::default() });
+        let totals = Self::totals(&inputs);
+        let tp2 = TxPlan { outs: tp.outs[1..].to_vec(), ..tp.clone() };
+        let mel_slots = self.change_outputs(&mut tx, &tp2, &totals, &BTreeMap::new());
+        let mut b = self.finish(tx, inputs, tp, &mel_slots, 0);
+        b.valid = b.valid && erg <= bound && (self.w.net != NetID::Mainnet || age >= 100);
+        Some(b)
+    }
+
     fn build_refaucet(&mut self, tp: &TxPlan) -> Option<Built> {
         if self.w.faucets_seen.is_empty() {
             return None;
@@ -1173,6 +1222,7 @@ impl<'a> Builder<'a> {
             4 => self.build_withdraw(tp),
             5 => self.build_stake(tp),
             6 => self.build_normal(tp, true),
+            7 => self.build_doscmint(tp),
             8 => self.build_refaucet(tp),
             _ => None,
         };
@@ -1365,6 +1415,19 @@ pub fn run_plan(plan: &Plan, profile: &Profile, mon: &mut dyn Monitor, st: &mut 
         if target > 0 {
             st.class("warped-to-activation");
             snap = w.snap();
+        }
+    }
+    if profile.low_dosc_start && plan.cfg.fee_pool % 3 == 0 {
+        if let Outcome::Ok(s0) = w.seal(None) {
+            let mut blk = s0.to_block();
+            blk.header.dosc_speed = if plan.cfg.val % 2 == 0 { 10 } else { 5_000 };
+            let r = Sealed::from_block(&blk, &s0.raw_stakes(), &w.db);
+            let hd = r.header();
+            w.headers.insert(hd.height.0, hd);
+            w.cur = r.next_unsealed();
+            w.last_sealed = Some(r);
+            snap = w.snap();
+            st.class("started-with-low-dosc-speed");
         }
     }
     if profile.seed_funds && w.net != NetID::Mainnet {
